@@ -1,12 +1,14 @@
 import Nervus.Driver.Util
 import Nervus.Driver.OKey
 import Nervus.Driver.CapiSched
+import Nervus.Driver.Locks
 open Nervus.Driver
 
 /-- stream registry: one line per stream (kept one-per-line so that merges are unions) -/
 def streams : List (String × Stream) := [
   ("okey", OKeyStream.stream),
-  ("capi_sched", CapiSchedStream.stream)
+  ("capi_sched", CapiSchedStream.stream),
+  ("locks", LocksStream.stream)
 ]
 
 def main (args : List String) : IO UInt32 := do
